@@ -807,6 +807,17 @@ func (r *runner) run() string {
 		case f[0] == "G" && len(f) == 2:
 			tag, _ := strconv.Atoi(f[1])
 			mp.RemoveOrphansByTag(mempool.Tag(tag))
+		case f[0] == "N" && len(f) == 2:
+			// a new session: fresh TxPool with another policy on the same chain
+			pol, err := parsePolicy(f[1])
+			if err != nil || pol.minRelayFee != r.pol.minRelayFee {
+				return "bad-op"
+			}
+			if err := r.e.makePool(pol); err != nil {
+				return "env-error"
+			}
+			r.pol = pol
+			r.e.note.announced = nil
 		case f[0] == "T":
 			res = r.template()
 		case f[0] == "C":
